@@ -48,6 +48,7 @@ type Frame struct {
 	fn          *ssa.Function
 	c           *Contract
 	top         bool
+	sliceHead   map[*ssa.Phi]*SliceV // option loop-slice-windows: the value of each re-sliced loop variable at loop entry
 	depth       int
 	ipdom       map[*ssa.BasicBlock]*ssa.BasicBlock
 	loopOf      map[*ssa.BasicBlock]map[*ssa.BasicBlock]bool // header -> body blocks
@@ -972,7 +973,7 @@ func (v *Verifier) merge2(a, b *State) *State {
 	if len(diff) > 0 {
 		c = v.F.And(diff...)
 	}
-	n := &State{headPC: a.headPC, mem: map[*Object]Value{}, ghosts: map[string]*Term{}, srcVar: map[string]Value{}, srcAdr: map[string]bool{}}
+	n := &State{headPC: a.headPC, headObj: a.headObj, mem: map[*Object]Value{}, ghosts: map[string]*Term{}, srcVar: map[string]Value{}, srcAdr: map[string]bool{}}
 	n.pc = v.F.Or(a.pc, b.pc)
 	n.path = v.F.Or(pa, pb)
 	if len(a.cnt) > 0 || len(b.cnt) > 0 {
@@ -1149,6 +1150,19 @@ func (fr *Frame) run(b, pred *ssa.BasicBlock, st *State, stop *ssa.BasicBlock) (
 							fr.oblige(st, fmt.Sprintf("%s:iteration:%s", fr.loopLabel(b), bi.Name), se.evalBool(bi.E), bi.E.Src)
 						}
 					}
+					for _, ins := range b.Instrs {
+						p, ok := ins.(*ssa.Phi)
+						if !ok {
+							break
+						}
+						if hd := fr.sliceHead[p]; hd != nil {
+							if cur, isS := st.env()[p].(*SliceV); isS && !(cur.Obj == hd.Obj && samePath(cur.Path, hd.Path)) {
+								F := fr.v.F
+								fr.oblige(st, fmt.Sprintf("%s:preserve:window:%s", fr.loopLabel(b), phiName(p)), F.And(F.Eq(cur.Len, F.I64(0)), F.Eq(cur.Cap, F.I64(0))),
+									"a re-sliced loop variable is a window of the object it viewed at loop entry, or empty without capacity")
+							}
+						}
+					}
 					fr.applyAnnot(st, ann, fr.loopLabel(b)+":preserve", true, false)
 					return nil
 				}
@@ -1170,6 +1184,7 @@ func (fr *Frame) run(b, pred *ssa.BasicBlock, st *State, stop *ssa.BasicBlock) (
 					}
 				}
 				st.headPC = st.pc
+				st.headObj = fr.v.objN
 			}
 		}
 		if !phisDone {
